@@ -1,6 +1,8 @@
 import KitModel.Pool
 import KitModel.Generated.C20
 import KitProofs.Lemmas.Pool
+import KitModel.PoolAdd
+import KitProofs.Lemmas.PoolAdd
 /-!
 # C20 — context.Pool: done exactly when all members are done (or Cancel), never earlier
 
@@ -423,6 +425,242 @@ theorem sim_sound (cfg : Config) (evs : List Event) :
     | nil => intro sim h; exact h
     | cons e es ih => intro sim h; exact ih _ (allReach_advance sim e h)
   exact this evs _ (allReach_start cfg)
+
+/-! ## `Add` in its real steps: check, call-out `ctx.Done()`, append (round 4)
+
+`Kit.Pool.fstep` (`KitModel/PoolAdd.lean`) splits an `Add` that is going to append into
+`addEnter` (write lock obtained, pool live, `p.anyLive()` true, `ctx.Done()` entered),
+lock-free steps of everybody else while the call-out lasts, and `addExit` (append, unlock).  The
+source shape that makes this the right split — `ctx.Done()` evaluated inside the critical section,
+as an argument of the `append` — is `t1_add`.  The theorems above carry over through a
+refinement, and the window itself is characterised: an `Add` that straddles the end of the last
+live member leaves a live pool that waits for the added context. -/
+section FineAdd
+
+/-- Refinement: every reachable state of the fine system is, through `FState.abs` (the `Add` inside
+its call-out counted as having taken effect when it took its decision), a reachable state of
+the coarse system.  So `Add` linearises at its check, whatever happens during `ctx.Done()`. -/
+theorem add_steps_refine_atomic {cfg : Config} {g : FState} (h : FReach cfg g) : Reach .fixed cfg g.abs :=
+  reach_abs_of_freach h
+
+/-- Conversely the coarse system is contained in the fine one (a call-out may return at once). -/
+theorem atomic_within_add_steps {cfg : Config} {s : State} (h : Reach .fixed cfg s) :
+    FReach cfg { base := s, win := none } :=
+  freach_of_reach h
+
+theorem abs_fields (g : FState) :
+    g.abs.done = g.base.done ∧ g.abs.closed = g.base.closed ∧ g.abs.members = g.base.members ∧
+      g.abs.ended = g.base.ended ∧ g.abs.pc = g.base.pc := by
+  cases hw : g.win <;> simp [FState.abs, hw]
+
+/-- Never early, on the real variables of the fine system. -/
+theorem fine_never_early {cfg : Config} {g : FState} (hr : FReach cfg g) (hd : g.base.done = true) :
+    g.base.closed = true ∨ ∀ m ∈ g.base.members, m ∈ g.base.ended := by
+  obtain ⟨h1, h2, h3, h4, _⟩ := abs_fields g
+  have := never_early (add_steps_refine_atomic hr) (by rw [h1]; exact hd)
+  rwa [h2, h3, h4] at this
+
+/-- While an `Add` is inside `ctx.Done()`: the pool context is not done, `Cancel` has not run, and
+the watcher is still inside its loop — it has yet to take the read lock and re-read `len(p.pool)`,
+so it will see the append. -/
+theorem fine_window_pool_live {cfg : Config} {g : FState} {c : Nat} (hr : FReach cfg g) (hw : g.win = some c) :
+    g.base.done = false ∧ g.base.closed = false ∧
+      ((∃ i x, g.base.pc = .waiting i x) ∨ (∃ i, g.base.pc = .woken i)) := by
+  have hW := winv_of_freach hr
+  have hL := hW.inLoop c hw
+  refine ⟨?_, hW.notClosed c hw, hL⟩
+  obtain ⟨h1, _, _, _, h5⟩ := abs_fields g
+  have hI := inv_of_reach (add_steps_refine_atomic hr)
+  cases hd : g.base.done with
+  | false => rfl
+  | true =>
+    have hfin := hI.done_iff.mp (by rw [h1]; exact hd)
+    rw [h5] at hfin
+    rcases hL with ⟨i, x, hp⟩ | ⟨i, hp⟩ <;> rw [hp] at hfin <;> cases hfin
+
+/-- The write lock is held during the call-out: `Size`, the watcher's `RLock`, and the body of any
+other `Add`/`Cancel` wait; contexts may end meanwhile (`fine_window_end_enabled`). -/
+theorem fine_window_blocks_lock_users {g : FState} {c : Nat} (hw : g.win = some c) :
+    (∀ n, fstep g (.base (.size n)) = none) ∧ fstep g (.base .wRelock) = none ∧
+      fstep g (.base .complete) = none ∧ (∀ op, fstep g (.base (.lockReq op)) = none) ∧
+      fstep g .addEnter = none := by
+  refine ⟨fun n => ?_, ?_, ?_, fun op => ?_, ?_⟩ <;> simp [fstep, hw, Label.lockFree]
+
+theorem fine_window_end_enabled {g : FState} {c : Nat} (hw : g.win = some c) (e : Nat) :
+    fstep g (.base (.endCtx e)) = some { base := { g.base with ended := e :: g.base.ended }, win := some c } := by
+  simp [fstep, hw, Label.lockFree, step]
+
+/-- What "member" means at `addEnter`: exactly the statement's condition, evaluated where the
+`Add` takes its decision — and at that point it holds, so the added context becomes a member. -/
+theorem fine_enter_makes_member {cfg : Config} {g g' : FState} {c : Nat} (hr : FReach cfg g)
+    (hwr : g.base.writer = some (.add c)) (h : fstep g .addEnter = some g') :
+    g'.win = some c ∧ g'.base.members = c :: g.base.members ∧ g.base.done = false ∧
+      ∃ m ∈ g.base.members, m ∉ g.base.ended := by
+  simp only [fstep] at h
+  split at h
+  · rename_i c' hwin hwr'
+    rw [hwr] at hwr'
+    cases hwr'
+    split at h
+    · cases h
+    · rename_i hcond
+      cases h
+      simp only [Bool.or_eq_true, not_or, Bool.not_eq_true] at hcond
+      have hig := hcond.2
+      have hP : PM g.base := by
+        have := pm_of_reach (add_steps_refine_atomic hr)
+        rwa [abs_of_win_none hwin] at this
+      have hnd : g.base.done = false := by
+        cases hd : g.base.done with
+        | false => rfl
+        | true => simp [State.addIgnored, hd] at hig
+      have hal : g.base.anyLive = true := by
+        cases ha : g.base.anyLive with
+        | true => rfl
+        | false => simp [State.addIgnored, ha] at hig
+      simp only [State.anyLive, List.any_eq_true, decide_eq_true_eq] at hal
+      obtain ⟨x, hx, hne⟩ := hal
+      have hlm : g.base.hasLiveMember = true := by
+        simp only [State.hasLiveMember, List.any_eq_true, decide_eq_true_eq]
+        exact ⟨x, hP x hx, hne⟩
+      refine ⟨rfl, ?_, hnd, x, hP x hx, hne⟩
+      simp [hnd, hlm]
+  · cases h
+
+/-- The straddle: whatever ended while `Add(c)` was inside `c.Done()` — also the last live member —
+when the call-out returns `c` is appended to a pool that is not done and not cancelled, `c` is a
+member, and the watcher has not left its loop.  (With `never_early`: the pool then stays live
+until `c` ends or `Cancel` is called.) -/
+theorem fine_straddle_tracked {cfg : Config} {g g' : FState} {c : Nat} (hr : FReach cfg g)
+    (hw : g.win = some c) (h : fstep g .addExit = some g') :
+    g'.win = none ∧ c ∈ g'.base.pool ∧ c ∈ g'.base.members ∧ g'.base.done = false ∧ g'.base.closed = false ∧
+      ((∃ i x, g'.base.pc = .waiting i x) ∨ (∃ i, g'.base.pc = .woken i)) := by
+  obtain ⟨hd, hc, hl⟩ := fine_window_pool_live hr hw
+  have hr' : FReach cfg g' := .step hr h
+  simp only [fstep, hw] at h
+  cases h
+  have hpool : c ∈ g.base.pool ++ [c] := by simp
+  refine ⟨rfl, hpool, ?_, hd, hc, hl⟩
+  have := tracked_are_members (add_steps_refine_atomic hr') c (by simp [FState.abs])
+  simpa [FState.abs] using this
+
+/-- Done and not cancelled: every tracked context has ended, and no `Add` is inside a call-out. -/
+theorem fine_done_all_tracked_ended {cfg : Config} {g : FState} (hr : FReach cfg g)
+    (hd : g.base.done = true) (hc : g.base.closed = false) :
+    g.win = none ∧ ∀ c ∈ g.base.pool, c ∈ g.base.ended := by
+  have hwin : g.win = none := by
+    cases hw : g.win with
+    | none => rfl
+    | some c => have := (fine_window_pool_live hr hw).1; rw [hd] at this; cases this
+  refine ⟨hwin, ?_⟩
+  have := done_all_tracked_ended (add_steps_refine_atomic hr)
+  rw [abs_of_win_none hwin] at this
+  exact this hd hc
+
+/-- `Size` in the fine system: only outside a window, and then `len(p.pool)`. -/
+theorem fine_size_spec {cfg : Config} {g g' : FState} {n : Nat} (hr : FReach cfg g)
+    (h : fstep g (.base (.size n)) = some g') :
+    g' = g ∧ g.win = none ∧ n = g.base.pool.length ∧
+      n = if g.base.closed then 0 else (initLive cfg).length + g.base.accepted.length := by
+  cases hw : g.win with
+  | some c => rw [(fine_window_blocks_lock_users hw).1 n] at h; cases h
+  | none =>
+    simp only [fstep, hw, Option.map_eq_some_iff] at h
+    obtain ⟨s, hs, rfl⟩ := h
+    have hreach : Reach .fixed cfg g.base := by
+      have := add_steps_refine_atomic hr
+      rwa [abs_of_win_none hw] at this
+    obtain ⟨h1, h2, h3⟩ := size_spec hreach hs
+    subst h1
+    refine ⟨?_, rfl, h2, h3⟩
+    cases g
+    simp at hw
+    simp [hw]
+
+/-- Liveness half for the fine system (∃-path, as `eventually_done`): if `Cancel` ran or every
+member has ended, internal steps — the return of a pending call-out included — lead to done. -/
+theorem fine_eventually_done {cfg : Config} {g : FState} (hr : FReach cfg g)
+    (hS : g.base.closed = true ∨ ∀ m ∈ g.base.members, m ∈ g.base.ended) :
+    ∃ g', FInternalPath g g' ∧ g'.base.done = true := by
+  have key : ∀ g : FState, FReach cfg g → g.win = none →
+      (g.base.closed = true ∨ ∀ m ∈ g.base.members, m ∈ g.base.ended) →
+      ∃ g', FInternalPath g g' ∧ g'.base.done = true := by
+    intro g hr hw hS
+    have hreach : Reach .fixed cfg g.base := by
+      have := add_steps_refine_atomic hr
+      rwa [abs_of_win_none hw] at this
+    obtain ⟨s', hp, hd⟩ := eventually_done cfg g.base hreach hS
+    have hg : g = { base := g.base, win := none } := by
+      cases g; simp at hw; simp [hw]
+    rw [hg]
+    exact ⟨{ base := s', win := none }, fpath_of_path hp, hd⟩
+  cases hw : g.win with
+  | none => exact key g hr hw hS
+  | some c =>
+    have hstep : fstep g .addExit = some { base := { g.base with pool := g.base.pool ++ [c], accepted := g.base.accepted ++ [c], writer := none }, win := none } := by
+      simp [fstep, hw]
+    obtain ⟨g', hp, hd⟩ := key _ (.step hr hstep) rfl hS
+    exact ⟨g', .step (l := .addExit) rfl hstep hp, hd⟩
+
+/-- Non-vacuity of the window theorems, and the straddle itself on the model: NewPool(ctx1);
+`Add(ctx5)` enters `ctx5.Done()`; ctx1 — the last live member — ends; the watcher's select
+returns, it waits for the read lock; the call-out returns; the watcher re-reads the length and
+waits for ctx5.  Not done, `Size` 2, ctx5 a member. -/
+def straddleRun : List FLabel :=
+  [.base .wHead, .base (.lockReq (.add 5)), .addEnter, .base (.endCtx 1), .base .wWake, .addExit,
+   .base .wRelock, .base .wHead]
+
+theorem straddle_on_model :
+    frun (finit { ctxs := [1], ended0 := [] }) straddleRun =
+      some { base := { pool := [1, 5], ended := [1], pc := .waiting 1 5, writer := none, closed := false,
+                       done := false, members := [5, 1], accepted := [5] }, win := none } := by
+  decide
+
+theorem freach_of_frun {cfg} : ∀ (ls : List FLabel) (g g' : FState), FReach cfg g → frun g ls = some g' →
+    FReach cfg g' := by
+  intro ls
+  induction ls with
+  | nil => intro g g' hr h; simp [frun] at h; subst h; exact hr
+  | cons l ls ih =>
+    intro g g' hr h
+    simp only [frun] at h
+    cases hs : fstep g l with
+    | none => simp [hs] at h
+    | some t =>
+      simp [hs] at h
+      exact ih t g' (.step hr hs) h
+
+example : ∃ cfg g c, FReach cfg g ∧ g.win = some c ∧ c ∉ g.base.ended ∧ ∀ m ∈ g.base.members, m ≠ c → m ∈ g.base.ended :=
+  ⟨{ ctxs := [1], ended0 := [] },
+    { base := { pool := [1], ended := [1], pc := .woken 0, writer := some (.add 5), closed := false,
+                done := false, members := [5, 1], accepted := [] }, win := some 5 }, 5,
+    freach_of_frun (straddleRun.take 5) _ _ .init (by decide), rfl, by decide, by decide⟩
+
+/-- The class of change this split is there for: decision under the read lock, `ctx.Done()` with
+no lock held, append under the write lock re-checking `closed` only (`ustep`).  The same schedule
+ends with the pool context done, not cancelled, while ctx5 is tracked and has not ended. -/
+theorem unlocked_callout_witness :
+    ∃ g, urun (finit { ctxs := [1], ended0 := [] })
+        [.base .wHead, .base (.lockReq (.add 5)), .addEnter, .base (.endCtx 1), .base .wWake, .base .wRelock,
+         .base .wHead, .base .wUnlock, .base .wCancel, .addExit] = some g ∧
+      g.base.done = true ∧ g.base.closed = false ∧ 5 ∈ g.base.pool ∧ 5 ∉ g.base.ended :=
+  ⟨{ base := { pool := [1, 5], ended := [1], pc := .finished, writer := none, closed := false, done := true,
+               members := [1], accepted := [5] }, win := none }, by decide, rfl, rfl, by decide, by decide⟩
+
+/-- Every state `kitdrv C20` holds after any sequence of events, windows included, is reachable:
+coarse states in the coarse system, fine states in the fine one (hence, by
+`add_steps_refine_atomic`, their abstractions in the coarse one). -/
+theorem dsim_sound (cfg : Config) (evs : List DEvent) :
+    DSim.Ok cfg (evs.foldl dadvance (.plain (Sim.start cfg))) := by
+  have : ∀ (evs : List DEvent) (d : DSim), DSim.Ok cfg d → DSim.Ok cfg (evs.foldl dadvance d) := by
+    intro evs
+    induction evs with
+    | nil => intro d h; exact h
+    | cons e es ih => intro d h; exact ih _ (ok_dadvance d e h)
+  exact this evs _ (allReach_start cfg)
+
+end FineAdd
+
 
 /-! ## T1: the source shape the model was written from
 
